@@ -287,6 +287,15 @@ static int _vds_shared_init(vorbis_dsp_state *v,vorbis_info *vi,int encp){
       ci->book_param[i]=NULL;
     }
   }
+  /* the partially built decode books must not survive: a second
+     vorbis_synthesis_init() would otherwise skip book setup and run
+     the decoder on zeroed codebooks */
+  if(ci->fullbooks){
+    for(i=0;i<ci->books;i++)
+      vorbis_book_clear(ci->fullbooks+i);
+    _ogg_free(ci->fullbooks);
+    ci->fullbooks=NULL;
+  }
   vorbis_dsp_clear(v);
   return -1;
 }
